@@ -3,5 +3,6 @@ CONSTANTS
   MaxMembers = 3
   MaxGhosts = 1
   AllItems = FALSE
+  TNs = {FALSE}
 INVARIANTS Emit NoClash
 CHECK_DEADLOCK FALSE
